@@ -127,7 +127,7 @@ def split_shards(skels, m, nevents=2, evented_only=False):
 
 
 def charts(skel, m, nevents=2, targets='free', internal=True, sym_order=True, hist_target=None,
-           evented_only=False, fix=None):
+           evented_only=False, fix=None, relax_w7=False):
     """all well-formed completions of a skeleton: init/memory per state and m transitions.
     targets: 'free' (any state or internal) | 'self_none' (self loop or internal)"""
     n, par, kind = skel['N'], skel['par'], skel['kind']
@@ -156,7 +156,7 @@ def charts(skel, m, nevents=2, targets='free', internal=True, sym_order=True, hi
         else:
             s.add(tgt[t] >= (-1 if internal else 0), tgt[t] < n)
         for h in range(1, n):
-            if kind[h] >= SH:                                                                    # W7
+            if kind[h] >= SH and not relax_w7:                                                   # W7
                 p = par[h]
                 s.add(z3.Implies(tgt[t] == h, z3.Not(inside(src[t], p))))
         for o in orth:                                                                           # W9
